@@ -484,8 +484,20 @@ func TestVerifC07(t *testing.T) {
 			propTables = append(propTables, reweighted[i])
 		}
 	}
+	// tables for the many-short-calls part
+	shortCalls := 3000
+	var shortTables []c07Named
+	if thorough {
+		shortCalls = 10000
+		shortTables = propTables
+	} else {
+		shortTables = append(shortTables, defaults[0], defaults[1], boundary[1], boundary[5])
+		for i := 0; i < len(reweighted) && len(shortTables) < 8; i += 6 {
+			shortTables = append(shortTables, reweighted[i])
+		}
+	}
 	vPR := newVerifRun("C07", "transform/codon.Optimize/post/proportional",
-		fmt.Sprintf("for each of %d tables (thorough: all 25 defaults, all prescribed-count tables, every second re-weighted table; quick: defaults 1, 2, 3, 12, 22, 23, 27, 12 prescribed-count tables, every third re-weighted table) and each amino acid with >= 2 eligible codons: one protein of %d copies of that residue; the counts of the emitted codons against w/(sum of eligible w) by Pearson chi-square, rejected only below p = 1e-9 (cannot flake: < 1e-5 over the whole run); an eligible codon never drawn or an ineligible one drawn also fails; amino acids with one eligible codon are checked to use only it (trivial)", len(propTables), draws))
+		fmt.Sprintf("(a) one long call: for each of %d tables (thorough: all 25 defaults, all prescribed-count tables, every second re-weighted table; quick: defaults 1, 2, 3, 12, 22, 23, 27, 12 prescribed-count tables, every third re-weighted table) and each amino acid with >= 2 eligible codons: one protein of %d copies of that residue; the counts of the emitted codons against w/(sum of eligible w) by Pearson chi-square, rejected only below p = 1e-9 (cannot flake: < 1e-5 over the whole run); an eligible codon never drawn or an ineligible one drawn also fails; amino acids with one eligible codon are checked to use only it (trivial); (b) many short calls: for each of %d tables (thorough: the tables of (a); quick: defaults 1 and 2, the prescribed-count tables 2:17 and 1000:8999 of code 1, re-weighted tables 0, 6, 12, 18) one protein of 5..10 residues over the amino acids with >= 2 eligible codons (every position another amino acid, or positions drawn independently) is optimised in %d separate Optimize calls made one after the other without pause (all within a fraction of a second); per amino acid the picks pooled over all calls and positions (%d x occurrences, expected count of every eligible codon > 300) against w/(sum of eligible w) by the same Pearson chi-square, rejected only below p = 1e-9, class many-short-calls", len(propTables), draws, len(shortTables), shortCalls, shortCalls))
 	vPR.Sampled()
 	for _, nt := range propTables {
 		for _, l := range nt.info.letters {
@@ -544,6 +556,116 @@ func TestVerifC07(t *testing.T) {
 				if p := c07ChiSqTail(chi, len(el)-1); p < 1e-9 {
 					vPR.Fail("not-proportional-to-weight", in, fmt.Sprintf("chi2=%.1f df=%d p=%.3g:%s", chi, len(el)-1, p, desc))
 				}
+			}
+		}
+	}
+
+	// ---- proportionality across many separate short calls ---------------------
+	// The same clause with the draws spread over many Optimize calls made one
+	// after the other instead of one call on a long protein: the picks for one
+	// amino acid are pooled over all the calls (and over its positions in the
+	// protein) and tested against the same proportions with the same threshold.
+	for ti, nt := range shortTables {
+		// a protein of 5..10 residues over the amino acids with >= 2 eligible codons
+		var multi []string
+		for _, l := range nt.info.letters {
+			if len(nt.info.eligible[l]) >= 2 {
+				multi = append(multi, l)
+			}
+		}
+		if len(multi) == 0 {
+			continue
+		}
+		// even tables: every position another amino acid (as far as there are
+		// enough of them); odd tables: positions drawn independently, so that
+		// an amino acid may recur
+		plen := 5 + rng.Intn(6)
+		pb := make([]byte, plen)
+		perm := append([]string(nil), multi...)
+		for i := len(perm) - 1; i > 0; i-- {
+			j := rng.Intn(i + 1)
+			perm[i], perm[j] = perm[j], perm[i]
+		}
+		for i := range pb {
+			if ti%2 == 0 {
+				pb[i] = perm[i%len(perm)][0]
+			} else {
+				pb[i] = multi[rng.Intn(len(multi))][0]
+			}
+		}
+		protein := string(pb)
+		in := fmt.Sprintf("table %s, protein %s optimised in %d separate consecutive calls", nt.name, protein, shortCalls)
+		vPR.Case(in, true)
+		vTH.Case(in, true)
+		pooled := map[string]map[string]int{} // letter -> triplet -> count
+		for _, l := range multi {
+			pooled[l] = map[string]int{}
+		}
+		failed := false
+		for call := 0; call < shortCalls && !failed; call++ {
+			var dna string
+			var err error
+			if !vPR.Guard("panic-on-encodable-protein", in, func() { dna, err = Optimize(protein, nt.table) }) {
+				failed = true
+				break
+			}
+			if err != nil {
+				vPR.Fail("error-on-encodable-protein", in, err.Error())
+				failed = true
+				break
+			}
+			if call%100 == 0 {
+				c07CheckOutput(vRT, vTH, nt, protein, dna)
+			}
+			if len(dna) != 3*plen {
+				vRT.Fail("wrong-length", in, fmt.Sprintf("result has %d bases for %d residues", len(dna), plen))
+				failed = true
+				break
+			}
+			for i := 0; i < plen; i++ {
+				pooled[protein[i:i+1]][dna[3*i:3*i+3]]++
+			}
+		}
+		if failed {
+			continue
+		}
+		for _, l := range multi {
+			n := strings.Count(protein, l) * shortCalls
+			if n == 0 {
+				continue
+			}
+			el := nt.info.eligible[l]
+			totalW := 0
+			isEl := map[string]bool{}
+			for _, c := range el {
+				totalW += c.Weight
+				isEl[c.Triplet] = true
+			}
+			bad := false
+			for tr, k := range pooled[l] {
+				if !isEl[tr] {
+					// the threshold (or round-trip) clause, seen on this input
+					if nt.info.decode[tr] == l {
+						vTH.Fail("codon-at-or-below-ten-percent-used", in, fmt.Sprintf("residue %s encoded by %s (weight %d of %d) %d times", l, tr, nt.info.weight[tr], nt.info.sum[l], k))
+					} else {
+						vRT.Fail("decodes-to-other-protein", in, fmt.Sprintf("residue %s encoded by %s %d times", l, tr, k))
+					}
+					bad = true
+				}
+			}
+			if bad {
+				continue
+			}
+			chi := 0.0
+			desc := fmt.Sprintf("residue %s, %d picks pooled over the calls:", l, n)
+			for _, c := range el {
+				exp := float64(n) * float64(c.Weight) / float64(totalW)
+				obs := float64(pooled[l][c.Triplet])
+				chi += (obs - exp) * (obs - exp) / exp
+				desc += fmt.Sprintf(" %s w=%d obs=%d exp=%.1f;", c.Triplet, c.Weight, pooled[l][c.Triplet], exp)
+			}
+			if p := c07ChiSqTail(chi, len(el)-1); p < 1e-9 {
+				vPR.Fail("many-short-calls", in, fmt.Sprintf("chi2=%.1f df=%d p=%.3g: %s", chi, len(el)-1, p, desc))
 			}
 		}
 	}
